@@ -915,6 +915,8 @@ def mon_c12(case):
     resident_idx = LAYOUT[kind][2]
     prevs = None
     for step, (op, out, cb, acct, snap) in enumerate(case["lines"], 1):
+        if op and is_panic(out, snap) and (op[0] == 0 or (kind == 0 and op[0] in (16, 17, 18)) or (kind == 1 and op[0] == 30)):
+            return step, f"the put-like call {op[:4]} returned no PutResult at all: it panicked"
         if not op or op[0] in (98, 99) or is_panic(out, snap):
             continue
         p = parse_snap(kind, snap)
@@ -980,6 +982,14 @@ def mon_c12(case):
                 # ARC may discard ghost entries silently, it never invents one
                 if not (R2 <= exp and (k, v) in R2):
                     return step, f"ARC put({k}): retained {sorted(R)} -> {sorted(R2)} with result {res}; expected a subset of {sorted(exp)} containing the new pair"
+                if phdr[0] >= 2:
+                    # with two slots or more only entries that were ghosts before the call may vanish (C12_arc_residents_kept):
+                    # the victim of the replacement becomes a ghost, it is not dropped
+                    was_resident = {e for i in resident_idx for e in plists[i] if e[0] != k}
+                    lost = was_resident - R2
+                    if lost:
+                        return step, (f"ARC put({k}) returned {res} and the entries {sorted(lost)}, resident before the call, are gone from "
+                                      f"every list (a resident victim becomes a ghost; only ghosts may be discarded silently)")
                 if t in (2, 3):
                     return step, f"ARC put returned {res}"
             elif R2 != exp:
